@@ -139,6 +139,25 @@ static Verdict run_case(const LCase &c) {
     case L_CREATE: {
       if (x.alive) break;
       x = Slot();
+      if (m.a >= 7) {
+        // a constructor call that is refused (size whose storage overflows; stride that is not a multiple of four; a
+        // format code deeper than its pixel): NULL, and nothing may stay allocated
+        long before = live_blocks();
+        uint32_t scratch[8] = {0};
+        pixman_image_t *r = nullptr;
+        switch (m.slot % 3) {
+        case 0: r = pixman_image_create_bits(PIXMAN_a8r8g8b8, 0x40000000, 64, nullptr, 0); break;
+        case 1: r = pixman_image_create_bits(PIXMAN_r5g6b5, 3, 2, scratch, 6); break;
+        default: r = pixman_image_create_bits((pixman_format_code_t)PIXMAN_FORMAT(8, PIXMAN_TYPE_ARGB, 8, 8, 8, 8), 2, 2, scratch, 4); break;
+        }
+        if (r) {
+          v.fail(fmt("step %d: an invalid pixman_image_create_bits request was accepted", step));
+          pixman_image_unref(r);
+        } else if (live_blocks() != before)
+          v.fail(fmt("step %d: a refused pixman_image_create_bits call left %ld allocation(s) behind", step, live_blocks() - before));
+        v.label("refused_constructor");
+        break;
+      }
       x.kind = m.a % 7;
       pixman_gradient_stop_t st[2] = {{0, {0xffff, 0, 0, 0xffff}}, {65536, {0, 0, 0xffff, 0x8000}}};
       pixman_point_fixed_t p1 = {0, 0}, p2 = {8 << 16, 4 << 16};
